@@ -202,16 +202,16 @@ Section proofs2.
   Qed.
 
   Lemma handle_soft : forall (w : worker) (r : request) o w' out,
-      w_alive w = true -> r_name r = "SoftStop" ->
+      w_alive w = true -> r_name r = "SoftStop" -> w_stopping w = None ->
       handle dispatch w r o = (w', out) ->
       out = [mkResp (r_id r) SProcessing] /\ w_alive w' = true /\ w_stopping w' = Some (r_id r).
   Proof.
-    intros w r o w' out Ha Hn H. unfold handle in H. rewrite Ha in H. cbn [negb] in H.
+    intros w r o w' out Ha Hn Hst H. unfold handle in H. rewrite Ha in H. cbn [negb] in H.
     assert (Hs : is_stop_name (r_name r) = true) by (rewrite Hn; reflexivity).
     pose proof (stop_not_special _ Hs) as E0. rewrite E0 in H.
     assert (F1 : (r_name r =? "HardStop") = false) by (rewrite Hn; reflexivity).
     assert (F2 : (r_name r =? "SoftStop") = true) by (rewrite Hn; reflexivity).
-    rewrite F1, F2 in H.
+    rewrite F1, F2, Hst in H.
     match type of H with context [notify dispatch ?w0 r o] => destruct (notify dispatch w0 r o) as [w1 [[a agg] b]] eqn:En end.
     inversion H; subst; clear H. destruct (notify_keeps _ _ _ _ _ En) as [K1 K2]. cbn in K1, K2.
     destruct (notify_counts view payload dispatch _ _ _ _ _ _ _ E0 En) as [Hc|[Hx _]]; [|congruence].
@@ -220,25 +220,54 @@ Section proofs2.
     unfold emit, is_stop. rewrite Hn. cbn. auto.
   Qed.
 
+  (** a second soft stop is refused at once; the first keeps its place *)
+  Lemma handle_soft_again : forall (w : worker) (r : request) o w' out sid,
+      w_alive w = true -> r_name r = "SoftStop" -> w_stopping w = Some sid ->
+      handle dispatch w r o = (w', out) ->
+      out = [mkResp (r_id r) SFailure] /\ w' = w.
+  Proof.
+    intros w r o w' out sid Ha Hn Hst H. unfold handle in H. rewrite Ha in H. cbn [negb] in H.
+    assert (Hs : is_stop_name (r_name r) = true) by (rewrite Hn; reflexivity).
+    pose proof (stop_not_special _ Hs) as E0. rewrite E0 in H.
+    assert (F1 : (r_name r =? "HardStop") = false) by (rewrite Hn; reflexivity).
+    assert (F2 : (r_name r =? "SoftStop") = true) by (rewrite Hn; reflexivity).
+    assert (G : second_soft_stop_refused = true) by reflexivity.
+    rewrite F1, F2, Hst, G in H. inversion H; subst. auto.
+  Qed.
+
+  (** a hard stop: its notice, the answer owed to the soft stop being served, its own OK *)
   Lemma handle_hard : forall (w : worker) (r : request) o w' out,
       w_alive w = true -> r_name r = "HardStop" ->
       handle dispatch w r o = (w', out) ->
-      out = [mkResp (r_id r) SProcessing; mkResp (r_id r) SOk] /\ w_alive w' = false /\ w_stopping w' = w_stopping w.
+      out = mkResp (r_id r) SProcessing ::
+            (match w_stopping w with Some sid => [mkResp sid SFailure] | None => [] end) ++ [mkResp (r_id r) SOk] /\
+      w_alive w' = false /\ w_stopping w' = None.
   Proof.
     intros w r o w' out Ha Hn H. unfold handle in H. rewrite Ha in H. cbn [negb] in H.
     assert (Hs : is_stop_name (r_name r) = true) by (rewrite Hn; reflexivity).
     pose proof (stop_not_special _ Hs) as E0. rewrite E0 in H.
     assert (F1 : (r_name r =? "HardStop") = true) by (rewrite Hn; reflexivity).
-    rewrite F1 in H.
+    assert (G : hard_stop_answers_soft = true) by reflexivity.
+    rewrite F1, G in H.
     destruct (notify dispatch w r o) as [w1 [[a agg] b]] eqn:En.
     inversion H; subst; clear H. destruct (notify_keeps _ _ _ _ _ En) as [K1 K2].
     destruct (notify_counts view payload dispatch _ _ _ _ _ _ _ E0 En) as [Hc|[Hx _]]; [|congruence].
     rewrite Hs in Hc. unfold check in Hc. apply andb_true_iff in Hc. destruct Hc as [Hc Hb].
     apply andb_true_iff in Hc. destruct Hc as [Hza Hagg]. apply Nat.eqb_eq in Hza, Hb. subst a b agg.
-    unfold emit, is_stop. rewrite Hn. cbn. auto.
+    unfold emit, is_stop. rewrite Hn, K2. cbn. destruct (w_stopping w); auto.
   Qed.
 
   Definition req_id_of (e : event) : list nat := match e with EReq r _ => [r_id r] | EDrained => [] end.
+
+  (** the requests served while the worker was alive *)
+  Definition served1 (w : worker) (e : event) : list request :=
+    match e with EReq r _ => if w_alive w then [r] else [] | EDrained => [] end.
+
+  Fixpoint served (w : worker) (es : list event) : list request :=
+    match es with
+    | [] => []
+    | e :: rest => served1 w e ++ served (fst (step dispatch w e)) rest
+    end.
 
   Lemma finals_single : forall id id' st, st <> SProcessing ->
       finals id [mkResp id' st] = if Nat.eqb id' id then 1 else 0.
@@ -246,41 +275,64 @@ Section proofs2.
     intros id id' st Hst. unfold finals. cbn. destruct (Nat.eqb id' id); destruct st; try reflexivity; congruence.
   Qed.
 
-  Lemma step_budget : forall (w : worker) e w' out id,
-      step dispatch w e = (w', out) ->
-      finals id out + ind (w_stopping w') id <= ind (w_stopping w) id + count_occ Nat.eq_dec (req_id_of e) id.
+  Definition b2n (b : bool) : nat := if b then 1 else 0.
+
+  Lemma count_one : forall (x id : nat), count_occ Nat.eq_dec [x] id = b2n (Nat.eqb x id).
   Proof.
-    intros w e w' out id H. destruct e as [r o|]; cbn [step req_id_of count_occ] in *.
+    intros x id. cbn. destruct (Nat.eq_dec x id) as [->|Hne]; [rewrite Nat.eqb_refl; reflexivity|].
+    apply Nat.eqb_neq in Hne. rewrite Hne. reflexivity.
+  Qed.
+
+  (** the exact ledger of one step: a final answer is issued for an id exactly
+      when that id is served now (and is not a soft stop put on hold), or when
+      the soft stop on hold is released *)
+  Lemma step_exact : forall (w : worker) e w' out id,
+      step dispatch w e = (w', out) ->
+      finals id out + ind (w_stopping w') id =
+      ind (w_stopping w) id + count_occ Nat.eq_dec (map r_id (served1 w e)) id.
+  Proof.
+    intros w e w' out id H. destruct e as [r o|]; cbn [step served1] in *.
     - destruct (w_alive w) eqn:Ha.
-      + destruct (is_stop_name (r_name r)) eqn:Hs.
+      + cbn [map]. rewrite count_one.
+        destruct (is_stop_name (r_name r)) eqn:Hs.
         * unfold is_stop_name in Hs. apply orb_true_iff in Hs. destruct Hs as [Hs|Hs]; apply String.eqb_eq in Hs.
-          -- destruct (handle_soft _ _ _ _ _ Ha Hs H) as [-> [_ ->]]. unfold finals. cbn.
-             destruct (Nat.eq_dec (r_id r) id) as [->|Hne]; [rewrite Nat.eqb_refl; cbn; lia|].
-             apply Nat.eqb_neq in Hne. rewrite Hne. cbn. lia.
-          -- destruct (handle_hard _ _ _ _ _ Ha Hs H) as [-> [_ ->]]. unfold finals. cbn.
-             destruct (Nat.eq_dec (r_id r) id) as [->|Hne]; [rewrite Nat.eqb_refl; cbn; lia|].
-             apply Nat.eqb_neq in Hne. rewrite Hne. cbn. lia.
+          -- destruct (w_stopping w) as [sid|] eqn:Est.
+             ++ destruct (handle_soft_again _ _ _ _ _ _ Ha Hs Est H) as [-> ->]. rewrite Est.
+                rewrite finals_single by discriminate. unfold b2n. lia.
+             ++ destruct (handle_soft _ _ _ _ _ Ha Hs Est H) as [-> [_ ->]]. unfold finals. cbn.
+                destruct (Nat.eqb (r_id r) id); cbn; lia.
+          -- destruct (handle_hard _ _ _ _ _ Ha Hs H) as [-> [_ ->]]. unfold finals. cbn [ind].
+             destruct (w_stopping w) as [sid|]; cbn; destruct (Nat.eqb (r_id r) id); try destruct (Nat.eqb sid id); cbn; lia.
         * destruct (handle_plain _ _ _ _ _ Ha Hs H) as [[st [-> Hst]] [_ ->]].
-          rewrite (finals_single _ _ _ Hst).
-          destruct (Nat.eq_dec (r_id r) id) as [->|Hne]; [rewrite Nat.eqb_refl; lia|].
-          apply Nat.eqb_neq in Hne. rewrite Hne. lia.
+          rewrite (finals_single _ _ _ Hst). unfold b2n. lia.
       + unfold handle in H. rewrite Ha in H. inversion H; subst. cbn. lia.
     - destruct (w_alive w); [|inversion H; subst; cbn; lia].
-      destruct (w_stopping w) as [sid|] eqn:Es; inversion H; subst; cbn [w_stopping ind count_occ]; rewrite ?Es; cbn [ind].
+      destruct (w_stopping w) as [sid|] eqn:Es; inversion H; subst; cbn [w_stopping ind map count_occ]; rewrite ?Es; cbn [ind].
       + unfold finals. cbn. destruct (Nat.eqb sid id); cbn; lia.
       + cbn. lia.
   Qed.
 
-  Lemma run_budget : forall es (w : worker) w' out id,
+  Lemma run_exact : forall es (w : worker) w' out id,
       run dispatch w es = (w', out) ->
-      finals id out + ind (w_stopping w') id <=
-      ind (w_stopping w) id + count_occ Nat.eq_dec (flat_map req_id_of es) id.
+      finals id out + ind (w_stopping w') id =
+      ind (w_stopping w) id + count_occ Nat.eq_dec (map r_id (served w es)) id.
   Proof.
-    induction es as [|e es IH]; intros w w' out id H; cbn [run flat_map] in *.
+    induction es as [|e es IH]; intros w w' out id H; cbn [run served] in *.
     - inversion H; subst. cbn. lia.
     - destruct (step dispatch w e) as [w1 o1] eqn:E1. destruct (run dispatch w1 es) as [w2 o2] eqn:E2.
-      inversion H; subst; clear H. rewrite finals_app, count_occ_app.
-      pose proof (step_budget _ _ _ _ id E1). pose proof (IH _ _ _ id E2). lia.
+      inversion H; subst; clear H. cbn [fst]. rewrite finals_app, map_app, count_occ_app.
+      pose proof (step_exact _ _ _ _ id E1). pose proof (IH _ _ _ id E2). lia.
+  Qed.
+
+  Lemma served_ids_sub : forall es (w : worker) id,
+      count_occ Nat.eq_dec (map r_id (served w es)) id <= count_occ Nat.eq_dec (flat_map req_id_of es) id.
+  Proof.
+    induction es as [|e es IH]; intros w id; cbn [served flat_map]; [reflexivity|].
+    rewrite map_app, !count_occ_app. specialize (IH (fst (step dispatch w e)) id).
+    assert (count_occ Nat.eq_dec (map r_id (served1 w e)) id <= count_occ Nat.eq_dec (req_id_of e) id).
+    { destruct e as [r o|]; cbn [served1 req_id_of]; [|reflexivity]. destruct (w_alive w); cbn [map count_occ]; [reflexivity|].
+      destruct (Nat.eq_dec (r_id r) id); lia. }
+    lia.
   Qed.
 
   Lemma one_final_answer_seq : forall es (w : worker) id,
@@ -288,8 +340,54 @@ Section proofs2.
       finals id (snd (run dispatch w es)) <= 1.
   Proof.
     intros es w id Hs Hnd. destruct (run dispatch w es) as [w' out] eqn:E.
-    pose proof (run_budget _ _ _ _ id E) as H. rewrite Hs in H. cbn [ind snd] in *.
+    pose proof (run_exact _ _ _ _ id E) as H. rewrite Hs in H. cbn [ind snd] in *.
+    pose proof (served_ids_sub es w id).
     pose proof (proj1 (NoDup_count_occ Nat.eq_dec _) Hnd id). lia.
+  Qed.
+
+  (** exactly one: once no soft stop is on hold (in particular once the worker
+      has ended), every request it served has had its final answer *)
+  Lemma every_served_request_answered : forall es (w : worker) w' out r,
+      w_stopping w = None -> NoDup (flat_map req_id_of es) ->
+      run dispatch w es = (w', out) -> w_stopping w' = None ->
+      In r (served w es) -> finals (r_id r) out = 1.
+  Proof.
+    intros es w w' out r Hs Hnd E Hs' Hin.
+    pose proof (run_exact _ _ _ _ (r_id r) E) as H. rewrite Hs, Hs' in H. cbn [ind] in H.
+    pose proof (served_ids_sub es w (r_id r)).
+    pose proof (proj1 (NoDup_count_occ Nat.eq_dec _) Hnd (r_id r)).
+    assert (1 <= count_occ Nat.eq_dec (map r_id (served w es)) (r_id r)).
+    { apply count_occ_In. apply in_map. exact Hin. }
+    lia.
+  Qed.
+
+  Lemma step_dead_answered : forall (w : worker) e,
+      (w_alive w = false -> w_stopping w = None) ->
+      w_alive (fst (step dispatch w e)) = false -> w_stopping (fst (step dispatch w e)) = None.
+  Proof.
+    intros w e Hinv. destruct (step dispatch w e) as [w' out] eqn:H. cbn [fst]. intros Hd.
+    destruct e as [r o|]; cbn [step] in H.
+    - destruct (w_alive w) eqn:Ha.
+      + destruct (is_stop_name (r_name r)) eqn:Hs.
+        * unfold is_stop_name in Hs. apply orb_true_iff in Hs. destruct Hs as [Hs|Hs]; apply String.eqb_eq in Hs.
+          -- destruct (w_stopping w) as [sid|] eqn:Est.
+             ++ destruct (handle_soft_again _ _ _ _ _ _ Ha Hs Est H) as [_ ->]. congruence.
+             ++ destruct (handle_soft _ _ _ _ _ Ha Hs Est H) as [_ [A _]]. congruence.
+          -- destruct (handle_hard _ _ _ _ _ Ha Hs H) as [_ [_ A]]. exact A.
+        * destruct (handle_plain _ _ _ _ _ Ha Hs H) as [_ [A _]]. congruence.
+      + unfold handle in H. rewrite Ha in H. inversion H; subst. apply Hinv. reflexivity.
+    - destruct (w_alive w) eqn:Ha; [|inversion H; subst; apply Hinv; reflexivity].
+      destruct (w_stopping w) eqn:Es; inversion H; subst; cbn; auto.
+  Qed.
+
+  Lemma run_dead_answered : forall es (w : worker),
+      (w_alive w = false -> w_stopping w = None) ->
+      w_alive (fst (run dispatch w es)) = false -> w_stopping (fst (run dispatch w es)) = None.
+  Proof.
+    induction es as [|e es IH]; intros w Hinv; cbn [run]; [exact Hinv|].
+    pose proof (step_dead_answered w e Hinv) as H1.
+    destruct (step dispatch w e) as [w1 o1]. cbn [fst] in H1. specialize (IH w1 H1).
+    destruct (run dispatch w1 es) as [w2 o2]. cbn [fst] in *. exact IH.
   Qed.
 
   (** ** view_tracks_master *)
@@ -325,20 +423,15 @@ Section proofs2.
     - cbn [fst]. symmetry. apply dispatch_noop. apply skip_is_noop. unfold skips_dispatch. rewrite E0. reflexivity.
     - destruct (r_name r =? "HardStop").
       + specialize (Hnot w eq_refl). destruct (notify dispatch w r o) as [w1 c]. cbn [fst] in *. exact Hnot.
-      + destruct (r_name r =? "SoftStop").
+      + destruct (r_name r =? "SoftStop") eqn:Esoft.
         * match goal with |- context [notify dispatch ?w0 r o] => specialize (Hnot w0 eq_refl); destruct (notify dispatch w0 r o) as [w1 c] end.
-          cbn [fst] in *. exact Hnot.
+          cbn [fst] in *. destruct (w_stopping w); [|exact Hnot].
+          assert (G : second_soft_stop_refused = true) by reflexivity. rewrite G. cbn [fst].
+          symmetry. apply dispatch_noop. apply String.eqb_eq in Esoft. rewrite Esoft.
+          assert (Hin : existsb (String.eqb "SoftStop") state_noop = true) by reflexivity.
+          apply existsb_exists in Hin. destruct Hin as [x [Hx He]]. apply String.eqb_eq in He. subst x. exact Hx.
         * specialize (Hnot w eq_refl). destruct (notify dispatch w r o) as [w1 c]. cbn [fst] in *. exact Hnot.
   Qed.
-
-  (** the requests served while the worker was alive *)
-  Fixpoint served (w : worker) (es : list event) : list request :=
-    match es with
-    | [] => []
-    | e :: rest =>
-      (match e with EReq r _ => if w_alive w then [r] else [] | EDrained => [] end)
-      ++ served (fst (step dispatch w e)) rest
-    end.
 
   Lemma view_tracks_master_seq : forall es (w : worker),
       w_view (fst (run dispatch w es)) =
@@ -347,7 +440,7 @@ Section proofs2.
     induction es as [|e es IH]; intros w; cbn [run served]; [reflexivity|].
     destruct (step dispatch w e) as [w1 o1] eqn:E1. specialize (IH w1).
     destruct (run dispatch w1 es) as [w2 o2]. cbn [fst] in *. rewrite IH, fold_left_app. f_equal.
-    destruct e as [r o|]; cbn [step] in E1.
+    destruct e as [r o|]; cbn [step served1] in *.
     - pose proof (handle_view w r o) as Hv. rewrite E1 in Hv. cbn [fst] in Hv. rewrite Hv.
       destruct (w_alive w); reflexivity.
     - destruct (w_alive w); [|inversion E1; reflexivity].
@@ -393,15 +486,18 @@ Section proofs3.
       destruct (r_name r =? "HardStop").
       + destruct (notify_erase w r o) as [A B].
         destruct (notify dispatch (erase w) r o) as [w1 c1]. destruct (notify dispatch w r o) as [w2 c2].
-        cbn [fst snd] in *. subst c2. split; [reflexivity|].
+        cbn [fst snd] in *. subst c2.
+        assert (Hst : w_stopping w1 = w_stopping w2) by (unfold erase in B; inversion B; reflexivity).
+        rewrite Hst. split; [reflexivity|].
         unfold erase in *. cbn [w_view w_base w_slots w_stopping w_alive] in *. inversion B. reflexivity.
       + destruct (r_name r =? "SoftStop").
-        * set (w0 := mkW (w_view w) (w_base w) (w_slots w) (Some (r_id r)) true).
-          change (mkW (w_view (erase w)) (w_base (erase w)) (w_slots (erase w)) (Some (r_id r)) true)
+        * cbn [erase w_stopping]. destruct (w_stopping w) as [sid|]; [destruct second_soft_stop_refused; [split; reflexivity|]|].
+          all: set (w0 := mkW (w_view w) (w_base w) (w_slots w) (Some (r_id r)) true).
+          all: change (mkW (w_view (erase w)) (w_base (erase w)) (w_slots (erase w)) (Some (r_id r)) true)
             with (erase w0).
-          destruct (notify_erase w0 r o) as [A B].
-          destruct (notify dispatch (erase w0) r o) as [w1 c1]. destruct (notify dispatch w0 r o) as [w2 c2].
-          cbn [fst snd] in *. subst c2. split; [reflexivity|exact B].
+          all: destruct (notify_erase w0 r o) as [A B].
+          all: destruct (notify dispatch (erase w0) r o) as [w1 c1]; destruct (notify dispatch w0 r o) as [w2 c2].
+          all: cbn [fst snd] in *; subst c2; split; [reflexivity|exact B].
         * destruct (notify_erase w r o) as [A B].
           destruct (notify dispatch (erase w) r o) as [w1 c1]. destruct (notify dispatch w r o) as [w2 c2].
           cbn [fst snd] in *. subst c2. split; [reflexivity|exact B].
